@@ -41,10 +41,21 @@ def dtc_layout(ctx, rule="R-LAYOUT"):
     else:
         ctx.violated(rule, init, inst, "packed DTC is %s" % v.describe(), init.node, witness=v.describe())
     # decode
-    rs = [r for r in call_runs(P, init, [], (("dtc", ("p", "dtc")),)) if (mk_cmp("==", ("p", "dtc"), ("c", None)), False) in lits(r.guards())]
-    if not rs:
+    allr = call_runs(P, init, [], (("dtc", ("p", "dtc")),))
+    # the decode path: the one that derives the SPN from the given code
+    dec = [r for r in allr if any(e.kind == "store" and e.target == ("attr", SELF, "_spn") and contains(e.value, ("p", "dtc")) for _, e in r.effects())]
+    if not dec:
         ctx.unknown(rule, "DTC decode path not found")
         return
+    idx = [i for i, e in dec[0].effects() if e.kind == "store" and e.target == ("attr", SELF, "_spn")][0]
+    gl = lits(dec[0].guards(idx))
+    inst = "DTC(dtc=x) decodes for every x that is not None (0x00000000 included)"
+    if gl == {(mk_cmp("==", ("p", "dtc"), ("c", None)), False)}:
+        ctx.holds(rule, inst)
+    else:
+        ctx.violated(rule, init, inst, "the decode branch is selected by %s, not by `dtc is not None`: a received code of 0 (SPN 0, FMI 0, OC 0) "
+                     "takes the encode branch with spn=None" % ", ".join("%s is %s" % (pretty(g), p) for g, p in sorted(gl, key=repr)), init.node)
+    rs = dec
     st = {e.target[2]: e.value for _, e in rs[0].effects() if e.kind == "store" and e.target[0] == "attr"}
     exp = {"_spn": [("b", "dtc", k) for k in range(16)] + [("b", "dtc", 21 + k) for k in range(3)],
            "_fmi": [("b", "dtc", 16 + k) for k in range(5)], "_oc": [("b", "dtc", 24 + k) for k in range(7)], "_cm": [("b", "dtc", 31)]}
@@ -129,6 +140,17 @@ def dm1_layout(ctx, rule="R-LAYOUT"):
             break
     if ok_send == 0:
         ctx.unknown(rule, "DM1 builder loop not recognised")
+    # the payload is a new list every cycle (J1939-21 keeps a reference to it while a BAM is in flight)
+    inplace = [e for r in runs(ctx, f, unroll=0) for _, e in r.effects()
+               if (e.kind == "store" and e.target[0] == "sub" and e.target[1] == DATA and e.target[2][0] == "slice")
+               or (e.kind == "call" and e.value[1] in (("attr", DATA, "clear"),))]
+    rebinding = [e for r in runs(ctx, f, unroll=0) for _, e in r.effects() if e.kind == "store" and e.target == DATA]
+    inst = "DM1 builder: each cycle builds its payload in a new list"
+    if inplace or not rebinding:
+        ctx.violated("R-FRESH-PAYLOAD", f, inst, "the payload is rebuilt in place in the list handed to send_pgn by the previous cycle: the transport "
+                     "session still sending that list (BAM longer than the cycle time) transmits a blend of two cycles", (inplace or [None])[0].node if inplace else f.node)
+    else:
+        ctx.holds("R-FRESH-PAYLOAD", inst)
     # lamp bytes first
     for r in runs(ctx, f, unroll=0):
         st = [e for _, e in r.effects() if e.kind == "store" and e.target == DATA]
